@@ -464,12 +464,14 @@ class Engine:
         self.obligations = 0
         self.discharged = 0
         self.notes_total = {}
+        self._path_vars = set()
         self._notes = set()
         self._obs = []
         self.unknowns = 0
 
     # ---- variables
     def _var(self, name, sort):
+        self._path_vars.add(name)
         v = self.vars.get(name)
         if v is None:
             v = z3.Const(name, sort)
@@ -643,6 +645,7 @@ class Engine:
         while True:
             self.trace = []
             self._notes = set()
+            self._path_vars = set()
             self._obs = []
             self.solver.push()
             self.model = None
@@ -696,6 +699,8 @@ class Engine:
         m = self.solver.model()
         values = {}
         for name, v in self.vars.items():
+            if name not in self._path_vars:
+                continue
             if v.sort() == z3.BoolSort():
                 values[name] = z3.is_true(m.eval(v, model_completion=True))
             else:
